@@ -145,6 +145,26 @@ def run(ctx):
                                   {"g": gp, "q": str(q)})
     from vlib import resulthistory
     resulthistory.replay(ctx, ["interp1d:cspline", "interp1d:linear", "squad:simpson", "squad:cspline"], "interp")
+    # ---- batched sample positions (every row its own grid) and batched queries: row by row like the 1-D interpolant
+    gb = torch.Generator().manual_seed(60 + ctx.seed)
+    xsb = torch.sort(torch.rand(2, 6, generator=gb, dtype=DT), dim=-1)[0]
+    xsb[:, 0], xsb[:, -1] = 0.0, 1.0
+    ysb = torch.randn(2, 6, generator=gb, dtype=DT)
+    with warnings.catch_warnings():
+        warnings.simplefilter("ignore")
+        for method, kw in (("linear", {}), ("cspline", {"bc_type": "natural"}), ("cspline", {"bc_type": "not-a-knot"}), ("cspline", {"bc_type": "clamped"})):
+            for nq in (3, 9):
+                n += 1
+                ctx.case(key=("batched-x", method, kw.get("bc_type"), nq))
+                xqb = torch.sort(torch.rand(2, nq, generator=gb, dtype=DT) * 0.9 + 0.05, dim=-1)[0]
+                try:
+                    outb = xitorch.interpolate.Interp1D(xsb, ysb, method=method, **kw)(xqb)
+                    refb = torch.stack([xitorch.interpolate.Interp1D(xsb[i], ysb[i], method=method, **kw)(xqb[i]) for i in range(2)])
+                    if tuple(outb.shape) != (2, nq) or not torch.allclose(outb, refb, atol=1e-12):
+                        ctx.violation("interp/batched-x/%s" % method, "Interp1D(%s%s) with batched sample positions (2, 6) and %d queries per row: shape %s / differs from the row-wise interpolants by %.2e"
+                                      % (method, kw, nq, tuple(outb.shape), float((outb - refb).abs().max()) if outb.shape == refb.shape else float("nan")), {"method": method})
+                except Exception as e:
+                    ctx.violation("interp/batched-x/%s" % method, "Interp1D(%s%s) with batched sample positions raised %s: %s" % (method, kw, type(e).__name__, str(e)[:120]), {"method": method})
     # ---- the cubic spline itself
     rng = np.random.RandomState(ctx.seed)
     sizes = [3, 4, 5, 8, 15] + ([30, 60] if thorough else [])
